@@ -23,6 +23,7 @@ type HarnessSpec struct {
 	Name      string
 	Quick     map[string]int
 	Thorough  map[string]int
+	Cfgs      []int // explicit configuration indices (instead of CfgBase/NCfg/Sample)
 	CfgBase   int // first configuration index
 	NCfgQ     int // number of configurations, quick (0 = 1)
 	NCfgT     int
@@ -289,7 +290,11 @@ func cmdCheck(args []string) int {
 		if n == 0 {
 			n = 1
 		}
-		for _, c := range sampleCfgs(n, k, seed) {
+		cfgList := sampleCfgs(n, k, seed)
+		if len(h.Cfgs) > 0 {
+			cfgList = h.Cfgs
+		}
+		for _, c := range cfgList {
 			p := map[string]int{}
 			for kk, v := range params {
 				p[kk] = v
@@ -361,19 +366,6 @@ func cmdCheck(args []string) int {
 		fmt.Printf("UNDISCHARGED property=%s count=%d reason=%s\n", prop, v, k)
 	}
 
-	// vacuity guards
-	for _, h := range spec.Harnesses {
-		if w.pkgs[h.Pkg] == nil || w.pkgs[h.Pkg].Func(h.Name) == nil {
-			continue
-		}
-		for _, c := range h.Covers {
-			if total.Covers[c] == 0 {
-				fmt.Printf("BROKEN property=%s: mandatory cover point %q of %s never reached (vacuous harness)\n", prop, c, h.Name)
-				return 2
-			}
-		}
-	}
-
 	// replay counterexamples natively
 	replayDir := filepath.Join(verifDir, "replays", prop)
 	byPkg := map[string][]string{}
@@ -431,6 +423,23 @@ func cmdCheck(args []string) int {
 			}
 		}
 	}
+
+	// vacuity guards
+	for _, h := range spec.Harnesses {
+		if w.pkgs[h.Pkg] == nil || w.pkgs[h.Pkg].Func(h.Name) == nil {
+			continue
+		}
+		for _, c := range h.Covers {
+			if total.Covers[c] == 0 {
+				if nViol > 0 || total.Violated > 0 {
+					continue // the harness did not get that far because the property is violated
+				}
+				fmt.Printf("BROKEN property=%s: mandatory cover point %q of %s never reached (vacuous harness)\n", prop, c, h.Name)
+				return 2
+			}
+		}
+	}
+
 
 	// translation validation: witnesses of completed paths are executed natively
 	// (real build) and by the engine in concrete mode; assertion outcomes,
